@@ -1,0 +1,36 @@
+//go:build verif
+
+// Contracts checked by /verif/gvc (contract-based deductive verification).
+// This file contains comments only; it is compiled only under the "verif" build tag.
+
+package redis
+
+// C09 — the redis-backed subscription store: what it sends to redis is well formed (every command argument has a
+// scalar wire type), the in-memory index is only changed after redis has taken the change, and what Init loads from
+// redis is filed under the client id it was stored under.
+
+//@ func (*sub).Unsubscribe
+//@ props C09
+//@ requires [C09] s != nil && s.pool != nil && s.memStore != nil && s.mu != nil
+//@ modifies heap, ghostall(redigo.Conn.$cmds), ghostall(redigo.Conn.$lastCmd), ghostall(redigo.Conn.$flushes)
+//@ abstract call TrieDB).UnsubscribeLocked pure
+// redis is told first; the in-memory index changes only if redis took the command
+//@ ensures [C09] result != nil ==> called(TrieDB.UnsubscribeLocked#1) == 0
+//@ ensures [C09] result == nil ==> called(TrieDB.UnsubscribeLocked#1) == 1 && called(Conn.Do#1) == 1
+//@ call Conn.Do#1 assert [C09] commandName == "hdel" && len(args) == len(topics) + 1 && args[0].(type string) && (forall i int :: 1 <= i && i < len(args) ==> args[i].(type string) && args[i].(string) == topics[i - 1])
+//@ call TrieDB.UnsubscribeLocked#1 assert [C09] $arg1 == clientID
+//@ loop 1 invariant len(args) == $k + 2 && args[0].(type string) && (forall i int :: 1 <= i && i < len(args) ==> args[i].(type string) && args[i].(string) == topics[i - 1]) && (forall i int :: 0 <= i && i < len(args) ==> wireArg(args[i]))
+
+//@ func DecodeSubscription trusted
+//@ ensures result1 == nil ==> result0 != nil
+
+// Init: every subscription read from the hash sub:<client id> is filed in the in-memory index under that client id.
+//@ func (*sub).Init
+//@ props C09
+//@ requires [C09] s != nil && s.pool != nil && s.memStore != nil && s.mu != nil
+//@ modifies heap, ghostall(redigo.Conn.$cmds), ghostall(redigo.Conn.$lastCmd), ghostall(redigo.Conn.$flushes)
+//@ abstract call TrieDB).SubscribeLocked pure
+//@ loop 1 invariant s != nil && s.memStore != nil && c != nil
+//@ loop 2 invariant s != nil && s.memStore != nil && c != nil && 1 <= i && (err == nil ==> (forall j int :: 0 <= j && j < len(rs) ==> rs[j].(type []byte)))
+//@ call Conn.Do#1 assert [C09] commandName == "hgetall" && len(args) == 1 && args[0].(type string) && args[0].(string) == concat("sub:", clientIDs[rangeindex])
+//@ call TrieDB.SubscribeLocked#1 assert [C09] $arg1 == clientIDs[rangeindex]
